@@ -18,4 +18,13 @@ var props = []PropSpec{
 		Stub: []string{"simerrgroup replaces golang.org/x/sync/errgroup (same API/semantics on simulator primitives)", "jobs are synthetic closures"},
 		Assumptions: commonAssumptions,
 	},
+	{
+		ID: "C17", Pkg: "./split-car-fetcher", Scenario: "C17", Level: "exploration",
+		Quick:    Tier{Runs: 4000, WallS: 60},
+		Thorough: Tier{Runs: 200000, WallS: 600},
+		Rule: "one run = one immutable remote file (1..64 bytes dense, up to 70000 sparse), 1..4 concurrent readers with up to 10 operations each over {ReadAt, GetRange, SetRange(true bytes), DeleteOldEntries, Sleep} on overlapping/nested/adjacent/zero-length/out-of-range ranges, the cache GC goroutine on the simulated clock, a per-run subset of remote fault kinds inside a fault window, then reads after the window; distinct = distinct (scenario digest, schedule signature, fired-fault multiset); non-trivial = a context switch or a fired fault",
+		Real: []string{"range-cache/range-cache.go", "split-car-fetcher/remote-file.go (NewRemoteHTTPFileAsIoReaderAt, ReadAt, remoteReadAt, retryExpotentialBackoff)", "split-car-fetcher/fetcher.go GetContentSizeWithHeadOrZeroRange", "net/http.Client above the RoundTripper"},
+		Stub: []string{"dsim/simhttp RoundTripper + object store replaces TCP and the remote web server (cut at http.RoundTripper; NewHTTPClient overridden to use it)"},
+		Assumptions: commonAssumptions,
+	},
 }
